@@ -1,0 +1,40 @@
+//go:build verif
+
+package verifhook
+
+import "sync/atomic"
+
+// Event kinds. The three arguments of an event are scalars whose meaning depends on the kind.
+const (
+	EvSpanBlock    = 1  // a span got a new block:        size, base address, span identity
+	EvSpanMalloc   = 2  // a span served an allocation:   n<<8|align, result address, span identity
+	EvMallocDirect = 3  // the decoder bypassed the span: n, abi type (0 = pointer free), 0
+	EvSlotLoad     = 4  // descriptor table lookup:       type, 1 if found, 0
+	EvSlotStore    = 5  // descriptor table store:        type, number of items in the slot, 0
+	EvGotLock      = 6  // registry mutex acquired
+	EvUnlock       = 7  // registry mutex about to be released
+	EvPfWrite      = 8  // prefetch cache insert:         type, 0, 0
+	EvLinkWrite    = 9  // nested descriptor linked:      nested type, 0, 0
+	EvRollback     = 10 // failed build rolled back:      cache entries removed, links removed, 0
+)
+
+// Sink receives events. It must not call into frugal.
+type Sink func(ev int, a, b, c uintptr)
+
+var sink atomic.Pointer[Sink]
+
+// Set installs (or, with nil, removes) the sink.
+func Set(s Sink) {
+	if s == nil {
+		sink.Store(nil)
+		return
+	}
+	sink.Store(&s)
+}
+
+// Emit forwards an event to the sink, if any.
+func Emit(ev int, a, b, c uintptr) {
+	if p := sink.Load(); p != nil {
+		(*p)(ev, a, b, c)
+	}
+}
